@@ -103,7 +103,20 @@ UnitsOf(M) ==
      \o [j \in DOMAIN os |-> [k |-> "oneof", h |-> os[j]]]
      \o [j \in DOMAIN es |-> [k |-> "embed", pp |-> es[j]]]
 
-MsgVals(M, deep, small) == ApplyUnits(M, UnitsOf(M), {M.zero}, deep, small)
+\* a value with every unit set to some non-zero choice
+RECURSIVE RichOf(_, _, _)
+RichOf(M, units, acc) ==
+  IF units = <<>> THEN acc
+  ELSE LET S == ApplyUnits(M, <<Head(units)>>, {acc}, FALSE, TRUE) \ {acc}
+       IN RichOf(M, Tail(units), IF S = {} THEN acc ELSE Pick(S))
+
+\* messages with more than three units are covered diagonally (around the zero value and a value with
+\* every unit set, each unit takes each of its values in turn), smaller ones by the full product
+MsgVals(M, deep, small) ==
+  LET units == UnitsOf(M)
+      rich == RichOf(M, units, M.zero)
+  IN IF Len(units) <= 3 THEN ApplyUnits(M, units, {M.zero}, deep, small)
+     ELSE {M.zero, rich} \cup UNION {ApplyUnits(M, <<units[i]>>, {M.zero, rich}, deep, small) : i \in DOMAIN units}
 
 \* ------------------------------------------------------------------------
 \* Terraform plan objects of a built message (what a plan / state / config of the schema type decodes
@@ -157,7 +170,10 @@ PlanProduct(M, i, acc, raw, small) ==
 \* bases exercise them), smaller messages by the full product.
 MsgPlans(M, raw, small) ==
   LET base == [a \in DOMAIN M.tt.at |-> NullOf(M.tt.at[a])]
-      wide == Len(M.fields) > 2
+      prodSize == LET RECURSIVE P(_)
+                      P(i) == IF i > Len(M.fields) THEN 1 ELSE Cardinality(FieldPlans(M.fields[i], raw, small)) * P(i + 1)
+                  IN P(1)
+      wide == Len(M.fields) > 2 \/ prodSize > 48
       sm == small \/ wide
       firstKnown(F) == LET K == {v \in FieldPlans(F, FALSE, TRUE) : Known(v)} IN IF K = {} THEN Pick(FieldPlans(F, FALSE, TRUE)) ELSE Pick(K)
       allNull == [a \in DOMAIN base |-> IF a \in AttrNames(M) THEN Pick({v \in FieldPlans(FieldByAttr(M, a), FALSE, TRUE) : ~Known(v)} \cup {base[a]}) ELSE base[a]]
